@@ -303,9 +303,13 @@ pub fn run(ctx: &Ctx) {
     let max_body = if ctx.quick() { 2000 } else { 65536 };
     ctx.prop("roundtrip", ctx.share(ctx.scale(50_000, 2_000_000)), roundtrip_strategy(max_body), |c| eval(ctx, c));
     ctx.prop("raw", ctx.share(ctx.scale(40_000, 2_000_000)), raw_strategy(), |c| eval(ctx, c));
+    // saved corpus of the coverage-guided campaigns (corpus/c14/*.pack): raw request bytes
+    ctx.set_section("corpus");
+    super::c04::replay_corpus(ctx, "c14", |ctx, data| judge_bytes(ctx, data));
 }
 
 pub fn replay(ctx: &Ctx, _section: &str, case: &Value) -> Verdict {
+    if let Some(b) = case.get("bytes").and_then(|b| b.as_str()) { if case.get("corpus_file").is_some() { return judge_bytes(ctx, &crate::fw::util::unescape_bytes(b)); } }
     match serde_json::from_value::<Case>(case.clone()) {
         Ok(c) => eval(ctx, &c),
         Err(e) => Verdict::fail("replay-unreadable", e.to_string()),
